@@ -1,22 +1,48 @@
 import FcpptModel.Prelude.Proto
 import FcpptModel.Model.C03.Shapes
+import FcpptModel.Spec.C03
 /-!
-Driver for C03.  Operations (one per line); an argument token `~` stands for the empty string:
+Driver for C03.  Operations (one per line); in an argument token `~` stands for the empty string and `\\s`, `\\t`, `\\n`,
+`\\\\` for a blank, a tab, a line break and a backslash.
+`<shape>` is a shape number of `Shapes.lean`, optionally followed by `@` and a comma-separated list of option names
+(`--long` / `-short`): the explicit `parse_context` the parser's own `parse` member is called with (default: the parser's
+own `option_names()`).
 
-* `run <shape> <tok>*`   — construct shape number `<shape>` of `Shapes.lean`, parse the argument vector.
-     result  `exc:duplicate-names` | `exc:options`                        (constructor threw)
+* `run <shape> <tok>*`   — construct the shape, parse the argument vector.
+     result  `exc:duplicate-names msg=TEXT` | `exc:options msg=TEXT`      (constructor threw; TEXT = what the exception says)
              `diverge`                                                     (fuel exhausted)
-             `P=<ok REC|error> R=<ok REC rest=TOKS|missing|other>`         (`parse` / the parser's own `parse` member)
-             `H=<help|ok REC|error> R=…`                                   (shapes run through `parse_help`)
+             `P=<ok REC|error msg=TEXT> R=<ok REC rest=TOKS|missing rest=TOKS msg=TEXT|other msg=TEXT>`
+                    (`options::parse`, the `error` printed through its `operator<<` / the parser's own `parse` member;
+                     `missing` shows the state and the text the `missing_error` carries)
+             `H=<help text=TEXT|ok REC|error msg=TEXT> R=…`               (shapes run through `parse_help`)
+     TEXT: `\` for a backslash, `\n` for a line break, `~` for the empty text
 * `hang <shape> <tok>*`  — the same (the harness runs it under a short watchdog)
 * `ex <shape> <n> <k> <alphabet: k tokens> <prefix tokens>*` — FNV digest over the `run` lines of all argument
      vectors of length `n` over the alphabet that start with the prefix (last position varies fastest)
+* `perm <shape> <tok>*`  — digest over the `run` lines of all orders of the tokens (every remaining token in turn as the next one)
+* `weave <shape> <e> <e tokens> <base tokens>*` — digest over all merges of the two vectors that keep both orders
+     (woven-in token first)
+* `oncmp <name>*` — `operator==` and `operator<` of `option_name` on every ordered pair of the names (`--long` / `-short`):
+     one group per left operand, two characters per right operand (`=`/`.`, `<`/`.`)
+* `isopt <tok>*` — `fcppt::options::is_option` of every token (`1`/`0`)
+* `info <shape>` — `flag_names()` / `option_names()` of every parser object the harness constructs, in construction order,
+     its `usage()` string, and name and help text of every `sub_command` (`F=… O=… U=TEXT | … | C=name T=TEXT|none | …`)
 -/
 namespace Fcppt.C03.Drv
 open Fcppt.Proto
 
-def decodeTok (s : String) : String := if s = "~" then "" else s
-def encodeTok (s : String) : String := if s = "" then "~" else s
+/-- tokens on the lines: `~` = the empty string, `\\s` `\\t` `\\n` `\\\\` = blank, tab, line break, backslash -/
+def decodeChars : List Char → List Char
+  | '\\' :: c :: r => (if c = 's' then ' ' else if c = 't' then '\t' else if c = 'n' then '\n' else c) :: decodeChars r
+  | c :: r => c :: decodeChars r
+  | [] => []
+
+def decodeTok (s : String) : String := if s = "~" then "" else String.ofList (decodeChars s.toList)
+
+def encodeTok (s : String) : String :=
+  if s = "" then "~" else
+  String.join (s.toList.map fun c =>
+    if c = ' ' then "\\s" else if c = '\t' then "\\t" else if c = '\n' then "\\n" else if c = '\\' then "\\\\" else c.toString)
 
 /-- insertion sort of record fields by label -/
 def insertField (x : String × String) : List (String × String) → List (String × String)
@@ -42,19 +68,41 @@ def showRec (r : Rec) : String := showVal (.recd r)
 
 def showToks (l : List Arg) : String := if l.isEmpty then "-" else ",".intercalate (l.map fun a => encodeTok a.2)
 
-def excName : ExcKind → String
+/-- a text on one line -/
+def esc (s : String) : String :=
+  if s.isEmpty then "~" else
+  String.join (s.toList.map fun c => if c = '\\' then "\\\\" else if c = '\n' then "\\n" else c.toString)
+
+def excName (e : Exc) : String :=
+  (match e.kind with
   | .duplicateNames => "exc:duplicate-names"
   | .optionsException => "exc:options"
-  | _ => "exc:other"
+  | _ => "exc:other") ++ " msg=" ++ esc e.msg
 
-def rawPart (f : Nat) (p : OP) (args : List String) : String :=
-  match parse f p (index args) p.optionNames with
+def showFlagNames (s : List String) : String :=
+  if s.isEmpty then "-" else ",".intercalate (s.map encodeTok)
+
+def showOptionNames (s : Ctx) : String :=
+  if s.isEmpty then "-" else ",".intercalate (s.map fun (n, sh) => encodeTok n ++ (if sh then ":s" else ":l"))
+
+/-- the `long_name()` / `short_name()` accessors of `flag`, `switch_`, `unit_switch` -/
+def accessorNames : OP → String
+  | .flag _ sh lg _ _ _ | .unitSwitch _ sh lg => s!" N={encodeTok lg}/" ++ (match sh with | none => "none" | some s => encodeTok s)
+  | _ => ""
+
+def nodeLine : Node → String
+  | .parser p => s!"F={showFlagNames p.flagNameSet} O={showOptionNames p.optionNameSet} U={esc p.usage}" ++ accessorNames p
+  | .erased p => s!"F={showFlagNames p.flagNameSet} O={showOptionNames p.optionNameSet} U={esc p.usage}"
+  | .sub n h => s!"C={encodeTok n} T=" ++ (match h with | none => "none" | some t => esc t)
+
+def rawPart (f : Nat) (p : OP) (args : List String) (ctx : Option Ctx) : String :=
+  match parse f p (index args) (ctx.getD p.optionNames) with
   | .ok (st, r, _) => s!"ok {showRec r} rest={showToks st}"
-  | .error (.missing _) => "missing"
-  | .error .other => "other"
+  | .error (.missing st m) => s!"missing rest={showToks st} msg={esc m}"
+  | .error (.other m) => s!"other msg={esc m}"
   | .error .diverge => "diverge"
 
-def runLine (s : Shape) (args : List String) : String :=
+def runLine (s : Shape) (ctx : Option Ctx) (args : List String) : String :=
   match construct s.op with
   | .error k => excName k
   | .ok () =>
@@ -63,42 +111,116 @@ def runLine (s : Shape) (args : List String) : String :=
       let f := fuelFor s.op args.length
       match parseTop f s.op args with
       | .error .diverge => "diverge"
-      | .error .error => s!"P=error R={rawPart f s.op args}"
-      | .ok (r, _) => s!"P=ok {showRec r} R={rawPart f s.op args}"
+      | .error (.error m) => s!"P=error msg={esc m} R={rawPart f s.op args ctx}"
+      | .ok (r, _) => s!"P=ok {showRec r} R={rawPart f s.op args ctx}"
     | some (hsh, hlg) =>
       let f := fuelFor (helpSum hsh hlg s.op) args.length
       match parseHelp f hsh hlg s.op args with
       | .error .diverge => "diverge"
-      | .error .error => s!"H=error R={rawPart f s.op args}"
-      | .ok .help => s!"H=help R={rawPart f s.op args}"
-      | .ok (.result r _) => s!"H=ok {showRec r} R={rawPart f s.op args}"
+      | .error (.error m) => s!"H=error msg={esc m} R={rawPart f s.op args ctx}"
+      | .ok (.help t) => s!"H=help text={esc t} R={rawPart f s.op args ctx}"
+      | .ok (.result r _) => s!"H=ok {showRec r} R={rawPart f s.op args ctx}"
+
+def infoLine (s : Shape) : String :=
+  match construct s.op with
+  | .error k => excName k
+  | .ok () =>
+    let hs := match s.help with
+      | none => []
+      | some (hsh, hlg) => [Node.parser (.unitSwitch "h" hsh hlg)]
+    " | ".intercalate ((s.nodes ++ hs).map nodeLine)
 
 /-- all vectors of length `n` over `alpha` (last position fastest), each appended to `pre` -/
-def digestAll (s : Shape) (alpha : List String) : Nat → List String → UInt64 → UInt64
-  | 0, pre, h => fnv h (runLine s pre.reverse)
-  | n + 1, pre, h => alpha.foldl (fun h t => digestAll s alpha n (t :: pre) h) h
+def digestAll (line : List String → String) (alpha : List String) : Nat → List String → UInt64 → UInt64
+  | 0, pre, h => fnv h (line pre.reverse)
+  | n + 1, pre, h => alpha.foldl (fun h t => digestAll line alpha n (t :: pre) h) h
 
-def getShape (sid : String) : Option Shape :=
-  match sid.toNat? with
-  | some i => shapes[i]?
-  | none => none
+/-- `l` without its `i`-th element -/
+def without (l : List String) (i : Nat) : List String := l.take i ++ l.drop (i + 1)
+
+/-- every remaining token in turn as the next element (fuel = number of remaining tokens) -/
+def digestPerm (line : List String → String) : Nat → List String → List String → UInt64 → UInt64
+  | 0, pre, _, h => fnv h (line pre.reverse)
+  | n + 1, pre, rest, h =>
+    (List.range rest.length).foldl (fun h i => digestPerm line n (rest[i]! :: pre) (without rest i) h) h
+
+/-- all merges of `e` (first) and `b` that keep both orders -/
+def digestWeave (line : List String → String) : Nat → List String → List String → List String → UInt64 → UInt64
+  | 0, pre, _, _, h => fnv h (line pre.reverse)
+  | _ + 1, pre, [], [], h => fnv h (line pre.reverse)
+  | n + 1, pre, e, b, h =>
+    let h1 := match e with
+      | [] => h
+      | x :: e' => digestWeave line n (x :: pre) e' b h
+    match b with
+    | [] => h1
+    | y :: b' => digestWeave line n (y :: pre) e b' h1
+
+/-- `--long` / `-short` -/
+def ctxName (s : String) : Option (String × Bool) :=
+  match s.toList with
+  | '-' :: '-' :: r => some (String.ofList r, false)
+  | '-' :: r => some (String.ofList r, true)
+  | _ => none
+
+def isDigits (s : String) : Bool := !s.isEmpty && s.toList.all fun c => '0' ≤ c && c ≤ '9'
+
+/-- `<id>` | `<id>@` | `<id>@--long,-short,…` -/
+def getShape (tok : String) : Option (Shape × Option Ctx) :=
+  match tok.splitOn "@" with
+  | [sid] => if isDigits sid then (shapes[sid.toNat!]?).map fun s => (s, none) else none
+  | [sid, names] =>
+    if !isDigits sid then none else
+    match shapes[sid.toNat!]? with
+    | none => none
+    | some s =>
+      if names = "" then some (s, some [])
+      else ((names.splitOn ",").mapM ctxName).map fun c => (s, some c)
+  | _ => none
+
+def guarded (s : Shape) (k : Unit → String) : String :=
+  match construct s.op with
+  | .error e => excName e      -- the constructor throws before anything is enumerated
+  | .ok () => k ()
 
 def handle (toks : List String) : String :=
   match toks with
+  | "oncmp" :: names =>
+    match names.mapM ctxName with
+    | none => "bad-op"
+    | some ns =>
+      String.join ("N" :: ns.map fun a => " " ++ String.join (ns.map fun b =>
+        (if a == b then "=" else ".") ++ (if optLt a b then "<" else ".")))
+  | "isopt" :: toks => "I " ++ String.join (toks.map fun t => if flagLike (decodeTok t) then "1" else "0")
   | "run" :: sid :: args | "hang" :: sid :: args =>
     match getShape sid with
-    | some s => runLine s (args.map decodeTok)
+    | some (s, c) => runLine s c (args.map decodeTok)
     | none => "bad-op"
+  | ["info", sid] =>
+    match getShape sid with
+    | some (s, _) => infoLine s
+    | none => "bad-op"
+  | "perm" :: sid :: args =>
+    match getShape sid with
+    | some (s, c) =>
+      if args.length > 8 then "bad-op"
+      else guarded s fun _ => "D " ++ hex64 (digestPerm (runLine s c) args.length [] (args.map decodeTok) fnvInit)
+    | none => "bad-op"
+  | "weave" :: sid :: e :: rest =>
+    match getShape sid, e.toNat? with
+    | some (s, c), some e =>
+      if rest.length < e then "bad-op"
+      else guarded s fun _ =>
+        "D " ++ hex64 (digestWeave (runLine s c) rest.length [] ((rest.take e).map decodeTok) ((rest.drop e).map decodeTok) fnvInit)
+    | _, _ => "bad-op"
   | "ex" :: sid :: n :: k :: rest =>
     match getShape sid, n.toNat?, k.toNat? with
-    | some s, some n, some k =>
+    | some (s, c), some n, some k =>
       if k = 0 ∨ rest.length < k then "bad-op" else
       let alpha := (rest.take k).map decodeTok
       let pre := (rest.drop k).map decodeTok
       if pre.length > n then "bad-op"
-      else match construct s.op with
-      | .error e => excName e      -- the constructor throws before anything is enumerated
-      | .ok () => "D " ++ hex64 (digestAll s alpha (n - pre.length) pre.reverse fnvInit)
+      else guarded s fun _ => "D " ++ hex64 (digestAll (runLine s c) alpha (n - pre.length) pre.reverse fnvInit)
     | _, _, _ => "bad-op"
   | _ => "bad-op"
 
